@@ -111,6 +111,7 @@ func (ex *Exec) callFunc(fr *frame, st *State, reach *Term, fn *ssa.Function, fr
 		return ex.inlineSummary(fr, st, reach, fn, fc, free, args, instr, exits)
 	}
 	if fc != nil && fc.Opts["inline-only"] == "" {
+		ex.callFree = free
 		return ex.applyContract(fr, st, reach, fn, fc, args, instr)
 	}
 	if eff := ex.eng.effectOf(fn); eff != effUnknown && len(fn.Blocks) == 0 || eff == effPure || eff == effNoop {
@@ -156,7 +157,7 @@ func (ex *Exec) canInline(fn *ssa.Function) bool {
 		n += len(b.Instrs)
 		for _, in := range b.Instrs {
 			switch in.(type) {
-			case *ssa.Select, *ssa.Send:
+			case *ssa.Select:
 				return false
 			}
 		}
@@ -437,9 +438,12 @@ func (ex *Exec) builtin(fr *frame, st *State, reach *Term, b *ssa.Builtin, c *ss
 	case "print", "println":
 		return nil, reach
 	case "close":
-		// closing a nil channel panics; closing a closed channel (not modelled: channels have no state) is not checked
-		ex.vc.note("close(ch): only ch != nil is checked (a second close of the same channel is not modelled)")
-		ex.safeOblige(fr, reach, Not(Eq(args[0].(*Term), IntLit(0))), "nilchan", instr)
+		// closing a nil channel or a closed channel panics
+		ch := args[0].(*Term)
+		ex.safeOblige(fr, reach, Not(Eq(ch, IntLit(0))), "nilchan", instr)
+		cl := ex.comp(st, chanClosedComp, aliveSort)
+		ex.safeOblige(fr, reach, Not(Select(cl, ch)), "close-closed", instr)
+		ex.setComp(st, chanClosedComp, Store(cl, ch, TTrue))
 		return nil, reach
 	case "min", "max":
 		acc := args[0].(*Term)
@@ -739,6 +743,7 @@ func (ex *Exec) scanInstr(fr *frame, in ssa.Instruction, ms *modSet, depth int, 
 		addMap(types.Unalias(x.Map.Type()).Underlying().(*types.Map))
 	case *ssa.MakeChan:
 		addAlive()
+		ms.addFresh(chanClosedComp, aliveSort)
 	case *ssa.MakeMap:
 		addAlive()
 		fresh = true
@@ -764,8 +769,9 @@ func (ex *Exec) scanInstr(fr *frame, in ssa.Instruction, ms *modSet, depth int, 
 				ms.add(name, ex.compSorts[name])
 			}
 		}
-	case *ssa.Send, *ssa.Select:
+	case *ssa.Select:
 		ms.setAll(fmt.Sprintf("site2 %v", ""))
+	case *ssa.Send:
 	case *ssa.Go:
 		ex.scanCall(fr, &x.Call, ms, depth, visiting)
 	case *ssa.Defer:
@@ -915,6 +921,8 @@ func (ex *Exec) scanCall(fr *frame, c *ssa.CallCommon, ms *modSet, depth int, vi
 			ms.add("alive", aliveSort)
 			c2, s := ex.sliceComp(types.Unalias(c.Args[0].Type()).Underlying().(*types.Slice).Elem())
 			ms.addFresh(c2, s)
+		case "close":
+			ms.add(chanClosedComp, aliveSort)
 		case "delete":
 			mt := types.Unalias(c.Args[0].Type()).Underlying().(*types.Map)
 			d, vv, l, ks, vs := ex.mapComps(mt)
